@@ -192,14 +192,15 @@ P['C11'] = dict(
 
 P['C16'] = dict(
   design_ref='DESIGN.md section 3 C16',
-  level_text='Solver-checked on the real density grid code: (A) DensityGrid(binSize, regions) for symbolic disjoint regions: bin limits span and tile the bounding box, every bin capacity equals the free area inside the bin (independent overlap oracle), the bins account for all free area. (R) one DensityLegalizer::reoptimize step on an arbitrary group of bins (square, line, zig-zag; groups without any capacity included) from an arbitrary distribution of the cells, all float costs unconstrained: every cell stays in exactly one bin and check() passes. (B) HierarchicalDensityPlacement under every sequence of up to N operations from {refineX, refineY, coarsenX, coarsenY, redistribution between adjacent bins}: its own check() asserts hold, capacity aggregates exactly, every cell of non-zero (symbolic) demand is in exactly one bin, zero-demand cells in none, the cell-to-bin map is consistent.',
-  text=dict(bounds=dict(quick='A: <=2 row regions of height 8 at y in {0,8} with symbolic x extents in [-30,30], bin size 4 or 7, <=3x2 bins; B: grids 1..4 x 1..2 bins, 3 cells with symbolic demand, 3 operations', thorough='B: 4 operations'),
+  level_text='Solver-checked on the real density grid code: (A) DensityGrid(binSize, regions) for symbolic disjoint regions: bin limits span and tile the bounding box, every bin capacity equals the free area inside the bin (independent overlap oracle), the bins account for all free area. (R) one DensityLegalizer::reoptimize step on an arbitrary group of bins (square, line, zig-zag; groups without any capacity included) from an arbitrary distribution of the cells, all float costs unconstrained: every cell stays in exactly one bin and check() passes; (RO) the same step directed into over-full windows (more demand than the window holds: the capacity-increase path of the transportation problem). (B) HierarchicalDensityPlacement under every sequence of up to N operations from {refineX, refineY, coarsenX, coarsenY, redistribution between adjacent bins}: its own check() asserts hold, capacity aggregates exactly, every cell of non-zero (symbolic) demand is in exactly one bin, zero-demand cells in none, the cell-to-bin map is consistent.',
+  text=dict(bounds=dict(quick='A: <=2 row regions of height 8 at y in {0,8,16} (a vertical gap is possible) with symbolic x extents in [-30,30], bin size 4 or 7, <=3x3 bins; R/RO: 6x2 bins with a zero-capacity block, 3 cells of symbolic demand 1..30; B: grids 1..4 x 1..2 bins, 3 cells with symbolic demand, 3 operations', thorough='B: 4 operations'),
             outside='the float claim that spread coordinates lie inside the bin is declined: the linear error model cannot close it (reported as not proved, harness H16S kept in the source for reference); whole rough-legalization runs only in the thorough tier (H16C, time-bounded); margin clipping of fromIspdCircuit; larger grids'),
   assumptions=STD_ASSUME + ['regions (rows) are pairwise disjoint'],
   harnesses=[
     dict(name='H16A', src='C16_density.cpp', covers=['grid built', 'end'], defines={'VCAP': 8, 'H16A': None, 'NREG': 2, 'YCH': 3}, cfg=dict(fp='havoc'), split=3, ir_srcs=ALL_IR, native_srcs=ALL_IR, native_flags=['-llemon']),
     dict(name='H16B', src='C16_density.cpp', covers=['built', 'end'], defines={'VCAP': 8, 'H16B': None, 'NOPS': 3}, cfg=dict(fp='havoc'), ir_srcs=ALL_IR, native_srcs=ALL_IR, native_flags=['-llemon'],
          thorough=dict(defines={'NOPS': 4})),
+    dict(name='H16RO', src='C16_density.cpp', covers=['distributed', 'end'], defines={'VCAP': 8, 'H16R': None, 'OVERFULL': None}, cfg=dict(fp='havoc', time_budget=40), ir_srcs=ALL_IR, native_srcs=ALL_IR, native_flags=['-llemon']),
     dict(name='H16R', src='C16_density.cpp', covers=['distributed', 'end'], defines={'VCAP': 8, 'H16R': None}, cfg=dict(fp='havoc', time_budget=40), ir_srcs=ALL_IR, native_srcs=ALL_IR, native_flags=['-llemon']),
     dict(name='H16C', src='C16_density.cpp', tiers=('thorough',), covers=['built'], defines={'VCAP': 8, 'H16C': None}, cfg=dict(fp='havoc', time_budget=200), split=5, ir_srcs=ALL_IR, native_srcs=ALL_IR, native_flags=['-llemon'],
          thorough=dict(cfg=dict(time_budget=600))),
